@@ -7,7 +7,7 @@ props = [json.loads(l) for l in open(os.path.join(V, "properties.jsonl"))]
 
 CLAIMED = {
  "C10": dict(
-   text="TLC enumerates every integer schema of the boundary lattice (formats x bound keywords x lattice points x multipleOf x default); each is replayed through the real add_type and the recorded outcome is validated by TLC against the C10 contract (IntSchema.tla) with probes over the whole lattice; the implementation model IntSelect.tla (a transcription of convert_integer) is judged by the same contract exhaustively and its drift from the code is measured",
+   text="TLC enumerates every integer schema of the boundary lattice (formats x bound keywords x lattice points x multipleOf x default); each is replayed through the real add_type and the recorded outcome is validated by TLC against the C10 contract (IntSchema.tla) with probes over the whole lattice; the implementation model IntSelect.tla (a transcription of convert_integer) is judged by the same contract exhaustively and its drift from the code is measured; string and number schemas with a format (MC_C10f, every spelling: plain, nullable, through allOf) are judged by Trace_C10f against the documented format table (unrecognised formats degrade to String / f64)",
    note="bounded: lattice of type limits +-2 (quick +-1); trusted: TLC, the transcription of draft-07 numeric keywords in IntSchema.tla (cross-checked against i128 arithmetic per run), vdrive",
    ref="DESIGN.md 6 C10"),
  "C13": dict(
@@ -19,7 +19,7 @@ CLAIMED = {
    note="bounded: histories <= 3/4 calls over a fixed template pool; trusted: TLC, vdrive's observation through the public API",
    ref="DESIGN.md 6 C16"),
  "C07": dict(
-   text="TLC enumerates every reference multigraph within the bound (n<=2 over 7 edge kinds, n=3 over a reduced alphabet) and builds the schema document in TLA+; each is ingested by the real typify and the containment graph of the generated types (internal snapshot and, independently, a Type::details() walk) is validated by TLC against Containment.tla: acyclic by value, and no Box at all when the schema graph is acyclic",
+   text="TLC enumerates every reference multigraph within the bound (n<=2 over 7 edge kinds, n=3 over a reduced alphabet) and builds the schema document in TLA+; each is ingested by the real typify and the containment graph of the generated types (internal snapshot and, independently, a Type::details() walk) is validated by TLC against Containment.tla: acyclic by value, and no Box at all when the schema graph is acyclic; a third observation is the by-value graph of the rendered items (emission stage); the implementation model Cycles.tla of break_cycles is model-checked over all small graphs (MC_Cycles) and every recorded step of the real loop (hook cycle_event) is validated against it by Trace_Cycles",
    note="bounded: number of definitions and edges; trusted: TLC, hook verif_snapshot (cross-checked against the public walk), vdrive",
    ref="DESIGN.md 6 C07"),
  "C02": dict(
